@@ -52,9 +52,30 @@ bool FeatureChecker::visitTemplateBefore(template_t& templ)
     return templ.is_instantiated;
 }
 
+/**
+ * Checks whether an initialiser gives a floating-point value to a clock: to the variable
+ * itself, to an element of an array of clocks or to a clock field of a record.
+ */
+static bool initialisesClockWithFP(const type_t& type, const expression_t& init)
+{
+    if (init.empty())
+        return false;
+    if (type.is_clock())
+        return init.uses_fp();
+    if (init.get_kind() != Constants::LIST)
+        return false;
+    for (uint32_t i = 0; i < init.get_size(); ++i) {
+        if (type.is_array() ? initialisesClockWithFP(type.get_sub(), init.get(i))
+                            : (type.is_record() && i < type.get_record_size() &&
+                               initialisesClockWithFP(type.get_sub(i), init.get(i))))
+            return true;
+    }
+    return false;
+}
+
 void FeatureChecker::visitVariable(variable_t& var)
 {
-    if (var.uid.get_type().is_clock() && !var.init.empty() && var.init.uses_fp())
+    if (initialisesClockWithFP(var.uid.get_type(), var.init))
         supported_methods.symbolic = false;
 }
 
